@@ -18,10 +18,18 @@ for d in sorted(glob.glob(os.path.join(ROOT, "seeded", "*", ""))):
         caught = any(l.startswith("VIOLATION") for l in proc.stdout.splitlines())
         rows.append((sid, prop, "caught" if caught else "MISSED", round(time.time() - t0), "; ".join(sigs[:3])))
         print(rows[-1], flush=True)
+# results are kept in seeded/results.json (one entry per seeded change and check) so that partial re-runs merge
+store_path = os.path.join(ROOT, "seeded", "results.json")
+store = json.load(open(store_path)) if os.path.exists(store_path) else {}
+for sid, prop, result, wall, sigs in rows:
+    store[f"{sid}|{prop}"] = {"seeded": sid, "check": prop, "result": result, "wall_s": wall, "signatures": sigs}
+json.dump(store, open(store_path, "w"), indent=1, sort_keys=True)
 with open(os.path.join(ROOT, "seeded", "RESULTS.md"), "w") as fh:
-    fh.write("# Seeded changes vs. the quick tier (VERIF_SEED=1) of the check of the property they break\n\n")
-    fh.write("Produced by tools/seeded_matrix.py (scratch copy of /repo HEAD + patch; /repo itself untouched).\n\n")
-    fh.write("| seeded change | property | result | wall s | signatures |\n|---|---|---|---|---|\n")
-    for r in rows:
-        fh.write("| " + " | ".join(map(str, r)) + " |\n")
-print("MISSED:", [r[0] for r in rows if r[2] != "caught"])
+    fh.write("# Seeded changes vs. the quick tier (VERIF_SEED=1) of the check(s) named in their meta.json\n\n")
+    fh.write("Produced by tools/seeded_matrix.py (scratch copy of /repo HEAD + patch; /repo itself untouched).\n")
+    fh.write("A change whose trigger is an edit history is listed against C17 as well as against the property it was written for.\n\n")
+    fh.write("| seeded change | check | result | wall s | signatures |\n|---|---|---|---|---|\n")
+    for key in sorted(store):
+        r = store[key]
+        fh.write(f"| {r['seeded']} | {r['check']} | {r['result']} | {r['wall_s']} | {r['signatures']} |\n")
+print("MISSED:", [r[0] + "/" + r[1] for r in rows if r[2] != "caught"])
